@@ -28,6 +28,23 @@ if os.path.exists(f'{V}/build/mutant_sweep.log'):
         if len(p) >= 2 and p[0].startswith('C'):
             sweep[p[0]] = l.strip()
 rows = []
+# changes validated by an earlier run (not in the current log): keep their recorded validation, refresh the detection column
+import glob
+for mp in sorted(glob.glob(f'{V}/seeded/C*-m*/meta.json')):
+    n = os.path.basename(os.path.dirname(mp))
+    if n in val:
+        continue
+    meta = json.load(open(mp))
+    vd = meta.get('validated')
+    if not vd:
+        continue
+    st = sweep.get(n, '')
+    det = 'caught' if ' DETECTED' in st else ('not caught' if ' missed' in st else ('patch no longer applies' if 'does-not-apply' in st else vd.get('quick_check_of_its_property', '?')))
+    vd['quick_check_of_its_property'] = det
+    json.dump(meta, open(mp, 'w'), indent=2)
+    sw = vd.get('suite_with_patch') or {}
+    rows.append((n, vd.get('confirmed'), (sw.get('passed', 0), sw.get('failed', 0)) if sw else None, vd.get('demo_with_patch_exit'),
+                 vd.get('demo_with_patch_failed_tests'), vd.get('demo_without_patch_exit'), vd.get('demo_without_patch_passed_tests'), det, st))
 for n in sorted(val):
     v = val[n]
     passed_without = sum(int(x) for x in re.findall(r'(\d+) passed', v.get('without', '')))
@@ -40,7 +57,7 @@ for n in sorted(val):
     mp = f'{V}/seeded/{n}/meta.json'
     meta = json.load(open(mp))
     meta['validated'] = {
-        'by': 'tools/validate_seeded.sh in a scratch worktree of the pinned commit e7e4d3c under /tmp (removed afterwards)',
+        'by': 'tools/validate_seeded.sh in a scratch worktree of commit %s under /tmp (removed afterwards)' % json.load(open(mp)).get('base', 'e7e4d3c (pinned)'),
         'ran': ['git apply patch.diff; cargo test --workspace --no-fail-fast --offline',
                 'git apply demo.diff; ' + v.get('demo_cmd', '?'), 'git apply -R patch.diff; ' + v.get('demo_cmd', '?')],
         'suite_with_patch': {'passed': v['suite'][0], 'failed': v['suite'][1]} if v.get('suite') else None,
@@ -53,8 +70,8 @@ for n in sorted(val):
 with open(f'{V}/seeded/STATUS.md', 'w') as f:
     f.write('# Seeded changes: confirmation in a scratch worktree and detection by the quick check\n\n')
     f.write('Confirmation = with the patch the whole suite passes, the demonstration fails with the patch and passes without it '
-            '(pinned commit, scratch worktree under /tmp). Detection = `tools/mutant.sh <name>` on the current tree.\n\n')
+            '(scratch worktree under /tmp of the commit the change was written against: the pinned commit for m1/m2, meta.json `base` for m3/m4). Detection = `tools/mutant.sh <name>` on the current tree.\n\n')
     f.write('| change | confirmed | suite with patch | demo with patch | demo without patch | quick check |\n|---|---|---|---|---|---|\n')
-    for n, c, s, wr, fw, wor, pw, det, st in rows:
+    for n, c, s, wr, fw, wor, pw, det, st in sorted(rows):
         f.write('| %s | %s | %s | exit %s, %s failed | exit %s, %s passed | %s |\n' % (n, 'yes' if c else 'NO', ('%d passed, %d failed' % s) if s else '?', wr, fw, wor, pw, det))
 print('\n'.join('%s confirmed=%s %s' % (r[0], r[1], r[7]) for r in rows))
